@@ -194,15 +194,18 @@ CHECKS = {
         "technique": "symbolic execution of the Python source on symbolic strings + SMT obligations per path, counterexample replay",
     },
     "C20": {
-        "text": "xml_escape is executed on symbolic strings (every character symbolic over the special characters, the entity letters and "
-                "a generic other): the output is proved free of bare specials, every & proved to start a predefined entity, and a "
-                "reference entity decoder (validated against lxml in element content and both attribute quotings each run) proved to "
-                "read back the input. format_hms is executed on a symbolic duration (ms integer / k/1000 s / integer s up to 10^7 s); "
+        "text": "xml_escape is executed on symbolic strings (every character any XML-legal code point, symbolic): the output is proved free "
+                "of bare specials, every & proved to start a reference, and a reference XML reader - line-end normalisation, "
+                "attribute-value normalisation, the five predefined entities and numeric character references; validated against lxml "
+                "and ElementTree in element content and both attribute quotings each run - proved to read back the input, in element "
+                "content and in an attribute value. One known finding is listed (TAB / LF / CR are left bare and are normalised by the "
+                "parser); counterexamples outside it are violations. format_hms is executed on a symbolic duration (ms integer / k/1000 s "
+                "/ integer s up to 10^7 s); "
                 "the text decodes to literals and (term, spec) tokens which are proved to encode the duration rounded to the nearest "
                 "second with fields in 00..59 and the form chosen by the rounded value; ms and s inputs give the same text. Milliseconds are also given with two decimals; rendered numbers are compared through a canonical digit-group model, so different format specs that print the same digits are recognised as equal.",
-        "note": "ASCII alphabet with one generic 'other' character; string length <= 4 (quick) / 6 (thorough); C-level number rendering "
+        "note": "string length <= 4 (quick) / 5 (thorough); C-level number rendering "
                 "is a token (term+spec); exact-real model of duration/1000.0; code that hands the symbolic string to a C-level matcher "
-                "(e.g. re) is reported INCONCLUSIVE, not decided",
+                "the shims do not model is reported INCONCLUSIVE, not decided",
         "technique": "symbolic execution of the Python source on symbolic strings / rationals + SMT obligations per path, counterexample replay",
     },
 }
